@@ -43,12 +43,12 @@ def plan(tier):
 
 
 def floors(tier):
-    return {"distinct_nontrivial": 2000, "readings_compared": 300000, "classes_seen": len(CLASSES), "kinds/fabricated": 500, "kinds/chained": 500,
+    return {"distinct_nontrivial": 2000, "readings_compared": 300000, "classes_seen": len(CLASSES), "kinds/fabricated": 500, "kinds/chained": 500, "kinds/chained_hexital": 300,
             "offset_twin_readings": 10000, "range_checks": 100000}
 
 
 def gen_case(rng, tier, idx):
-    kind = rng.choice(["price", "price", "fabricated", "chained"])
+    kind = rng.choice(["price", "price", "price", "fabricated", "fabricated", "chained", "chained", "chained_hexital"])
     if kind == "price":
         return numeric.gen_price_case(rng, tier, CLASSES)
     cls = rng.choice([c for c in CLASSES if c != "VWMA"])
@@ -71,7 +71,12 @@ def gen_case(rng, tier, idx):
     src, name = rng.choice(SOURCES)
     if src["cls"] == cls and src["kw"].get("period") == kw.get("period"):
         kw["period"] = kw["period"] + 1  # distinct names: an indicator cannot take a series of its own name as input
-    return {"kind": kind, "cfg": {"cls": cls, "kw": kw}, "rows": rows, "source": src, "source_name": name, "mode": rng.choice(["batch", "incremental"])}
+    out = {"kind": kind, "cfg": {"cls": cls, "kw": kw}, "rows": rows, "source": src, "source_name": name, "mode": rng.choice(["batch", "incremental"])}
+    if kind == "chained_hexital":
+        # the same chain registered in a Hexital, in the user's order (input first), in every mix of object / dict form
+        out["forms"] = [rng.choice(["dict", "object"]), rng.choice(["object", "dict"])]
+        out["chunk"] = rng.choice([1, 1, 2, 5])
+    return out
 
 
 def range_check(cls, kw, col, xs, s0, stats, r):
@@ -155,6 +160,32 @@ def run_case(case):
             col = ind.as_list()
             xs = [None] * s + list(case["values"])
             stats.setdefault("offsets", set()).add(f"s{s}")
+        elif case["kind"] == "chained_hexital":
+            from hexital import Hexital
+            name = case["source_name"]
+            cfg["kw"]["input_value"] = name
+            entries = []
+            for c_, form in zip((case["source"], cfg), case["forms"]):
+                entries.append(configs.build(c_) if form == "object" else configs.as_dict_form(c_))
+            stats.setdefault("hexital_forms", set()).add("+".join(case["forms"]))
+            if case["mode"] == "batch":
+                hx = Hexital("h", rows_to_candles(case["rows"]), entries)
+                hx.calculate()
+            else:
+                hx = Hexital("h", rows_to_candles(case["rows"][:2]), entries)
+                pos = 2
+                while pos < len(case["rows"]):
+                    hx.append(rows_to_candles(case["rows"][pos:pos + case["chunk"]]))
+                    pos += case["chunk"]
+            ind = hx.indicators[configs.build(cfg).name]
+            cs = hx.candles()
+            col = ind.as_list()
+            main, _, fld = name.partition(".")
+            xs = []
+            for c in cs:
+                v = vars(c)["indicators"].get(main)
+                xs.append(v.get(fld) if (fld and isinstance(v, dict)) else v)
+            s = next((i for i, x in enumerate(xs) if x is not None), len(xs))
         else:
             cs = rows_to_candles(case["rows"])
             src = configs.build(case["source"], candles=cs)
